@@ -1,1 +1,4 @@
+import ChiaModel.Props.C01
+import ChiaModel.Props.C02
+import ChiaModel.Props.C04
 import ChiaModel.Props.C11
